@@ -50,6 +50,13 @@ def put(s, tag, body):
     a, b = "<!-- %s-BEGIN -->" % tag, "<!-- %s-END -->" % tag
     i, j = s.index(a) + len(a), s.index(b)
     return s[:i] + "\n" + body + s[j:]
+import importlib, sys
+sys.path.insert(0, HERE)
+rows_ab = ["| id | generated domain and counting rule (RULE) |", "|---|---|"]
+for i in range(1, 19):
+    m = importlib.import_module("pbt.props.c%02d" % i)
+    rows_ab.append("| C%02d | %s |" % (i, m.RULE.replace("|", "\\|")))
+s = put(s, "ASBUILT", "\n".join(rows_ab) + "\n")
 s = put(s, "FINDINGS", findings_md)
 s = put(s, "SEEDED", seeded_md)
 open(p, "w").write(s)
